@@ -33,15 +33,17 @@ type verifConn struct {
 	closeErr error
 	log      []verifWrite
 	writes   int
-	failAt   int // index of the WriteTo call that fails (-1: none)
+	failAt   int           // index of the WriteTo call that fails (-1: none)
+	readErr  chan struct{} // closed when reading starts to fail (a fault of the socket, not Close)
 }
 
 func newVerifConn() *verifConn {
-	return &verifConn{in: make(chan verifDgram, 16), closed: make(chan struct{}), failAt: -1}
+	return &verifConn{in: make(chan verifDgram, 16), closed: make(chan struct{}), failAt: -1, readErr: make(chan struct{})}
 }
 
 var errVerifClosed = errors.New("verif: use of closed connection")
 var errVerifWrite = errors.New("verif: write failed")
+var errVerifReadFault = errors.New("verif: read failed")
 
 func (c *verifConn) ReadFrom(b []byte) (int, net.Addr, error) {
 	select {
@@ -50,7 +52,14 @@ func (c *verifConn) ReadFrom(b []byte) (int, net.Addr, error) {
 		return n, d.from, nil
 	case <-c.closed:
 		return 0, nil, errVerifClosed
+	case <-c.readErr:
+		return 0, nil, errVerifReadFault
 	}
+}
+
+// failReadAt makes every ReadFrom fail from virtual instant t on.
+func (c *verifConn) failReadAt(t int64) {
+	verifAt(t, func() { close(c.readErr) })
 }
 
 func (c *verifConn) WriteTo(b []byte, a net.Addr) (int, error) {
